@@ -35,13 +35,17 @@ Definition ports_ok : bool :=
   && forallb (fun c => match assoc c tcp_port_of_category, assoc c udp_port_of_category with
                        | Some _, Some _ => true | _, _ => false end) device_categories.
 
-Definition classes_ok : bool :=
-  (length class_accepts =? 4 * length device_types)%nat &&
+Definition class_table_ok (tbl : list (string * string * bool)) : bool :=
+  (length tbl =? 4 * length device_types)%nat &&
   forallb (fun '(cls, ty, acc) =>
     match class_category cls, find (fun t => String.eqb (dt_name t) ty) device_types with
     | Some cc, Some t => Bool.eqb acc (String.eqb (dt_cat t) cc)
     | _, _ => false
-    end) class_accepts &&
+    end) tbl &&
   forallb (fun cls => forallb (fun t =>
-      existsb (fun '(c, ty, _) => String.eqb c cls && String.eqb ty (dt_name t)) class_accepts) device_types)
+      existsb (fun '(c, ty, _) => String.eqb c cls && String.eqb ty (dt_name t)) tbl) device_types)
     ["SwitcherPowerPlug"; "SwitcherWaterHeater"; "SwitcherThermostat"; "SwitcherShutter"].
+
+(* class_accepts: the constructor accepted the type under every variation of the other fields tried by the translator;
+   class_accepts_some: under at least one.  Both must be the category relation, so acceptance cannot depend on another field. *)
+Definition classes_ok : bool := class_table_ok class_accepts && class_table_ok class_accepts_some.
